@@ -63,7 +63,7 @@ class MemStorage(Storage):
 class Built:
     """Task objects of one configuration."""
 
-    def __init__(self, cfg: dict, shape_seed: int = 0, fail_beh: str = 'raise', beh: Optional[dict] = None):
+    def __init__(self, cfg: dict, shape_seed: int = 0, fail_beh: str = 'raise', beh: Optional[dict] = None, twins: bool = True):
         self.cfg = cfg
         self.rnd = random.Random(shape_seed * 7919 + 13)
         self.shape_seed = shape_seed
@@ -72,6 +72,7 @@ class Built:
         self.canon: dict = {}
         self.placement: dict = {}
         self.fresh_prob = (shape_seed % 3) * 0.4      # 0, .4, .8: how often an equal but distinct instance is built
+        self.twins = twins
 
     def cls(self, t):
         if self.cfg.get('twins'):
@@ -102,14 +103,16 @@ class Built:
         # task t is built the same way (equal tasks); which dependency *instances* are used is not
         srnd = random.Random(self.shape_seed * 1009 + t * 31 + 7)
         a, b = None, ()
+        # a dependency that appears twice in the parameters of one task may do so as two equal but distinct objects
+        twin = (lambda o: self.make(o.tid, fresh=True)) if (self.twins and self.fresh_prob > 0 and self.rnd.random() < 0.5) else (lambda o: o)
         if objs:
             if srnd.random() < 0.35:
                 a, rest = objs[0], objs[1:]
                 if srnd.random() < 0.3:
-                    rest = objs            # the single-task parameter's task appears in the collection as well
+                    rest = [twin(objs[0])] + objs[1:]     # the single-task parameter's task appears in the collection as well
             else:
                 rest = objs
-            b = nest(list(rest), srnd, 3) if rest else ()
+            b = nest(list(rest), srnd, 3, twin) if rest else ()
             if is_task_obj(b):
                 b = [b]
         obj = self.cls(t)(tid=t, a=a, b=b, beh=self.behaviour(t))
@@ -128,7 +131,7 @@ def is_task_obj(x):
     return hasattr(x, 'tid')
 
 
-def nest(objs: list, rnd, depth: int):
+def nest(objs: list, rnd, depth: int, twin=lambda o: o):
     """A random nesting of lists / tuples / string-keyed dicts holding exactly the given tasks.
     Includes sibling containers of identical shape and size, singleton wrappers, duplicates."""
     if not objs:
@@ -150,12 +153,12 @@ def nest(objs: list, rnd, depth: int):
     if kind == 'dict-of-dicts':
         return {f'e{i}': {'m': o, 'w': i} for i, o in enumerate(objs)}
     if kind == 'dup':
-        return {'dup': [objs[-1]], 'all': nest(objs, rnd, depth - 1), 'n': len(objs)}
+        return {'dup': [twin(objs[-1])], 'all': nest(objs, rnd, depth - 1, twin), 'n': len(objs)}
     cut = rnd.randrange(0, len(objs) + 1)
     left, right = objs[:cut], objs[cut:]
     if kind == 'dict-split':
-        return {'x': nest(left, rnd, depth - 1), 'y': nest(right, rnd, depth - 1), 's': 'lit'}
-    return [nest(left, rnd, depth - 1), nest(right, rnd, depth - 1), 3.5]
+        return {'x': nest(left, rnd, depth - 1, twin), 'y': nest(right, rnd, depth - 1, twin), 's': 'lit'}
+    return [nest(left, rnd, depth - 1, twin), nest(right, rnd, depth - 1, twin), 3.5]
 
 
 def lab_context(epoch: int, n: int) -> dict:
@@ -176,7 +179,7 @@ def prepare_storage(cfg: dict, storage: Storage, shape_seed: int = 0):
         return
     c0 = dict(cfg)
     c0 = {**cfg, 'fail': [], 'req': list(cfg['cached0'])}
-    built = Built(c0, shape_seed)
+    built = Built(c0, shape_seed, twins=False)      # (the pre-state is built from the plainest instances)
     lab = labtech.Lab(storage=storage, context=lab_context(0, cfg['n']), runner_backend='serial',
                       continue_on_failure=False)
     tasks = [built.make(t) for t in cfg['cached0']]
@@ -206,6 +209,14 @@ def walk_instances(req_objs):
     for o in req_objs:
         rec(o, [])
     return out
+
+
+def meta_token(obj) -> str:
+    """What an instance is marked with: start and duration of the outcome recorded on it ('' = unmarked)."""
+    m = getattr(obj, 'result_meta', None)
+    if m is None:
+        return ''
+    return f'{m.start.isoformat()}|{m.duration}'
 
 
 def observe_cache(lab, built, n):
